@@ -445,6 +445,24 @@ def _prev_constructor(loader, node):
 
 
 @rethrow_as_parsing_error
+def _append_constructor_md(loader, tag_suffix, node):
+    from .nodes.append import AppendNode
+    return _make_node(loader, node, kwargs=_decode_metadata(tag_suffix), node_type=AppendNode)
+
+
+@rethrow_as_parsing_error
+def _include_constructor_md(loader, tag_suffix, node):
+    from .nodes.include import IncludeNode
+    return _make_node(loader, node, kwargs=_decode_metadata(tag_suffix), node_type=IncludeNode, dict_is_data=False, parse_scalars=False)
+
+
+@rethrow_as_parsing_error
+def _prev_constructor_md(loader, tag_suffix, node):
+    from .nodes.prev import PrevNode
+    return _make_node(loader, node, kwargs=_decode_metadata(tag_suffix), node_type=PrevNode, parse_scalars=False)
+
+
+@rethrow_as_parsing_error
 def _xref_constructor(loader, node):
     from .nodes.xref import XRefNode
     return _make_node(loader, node, node_type=XRefNode, parse_scalars=False)
@@ -640,9 +658,12 @@ add_constructor('!weak', _weak_constructor)
 add_constructor('!force', _force_constructor)
 add_constructor('!merge', _merge_constructor)
 add_constructor('!append', _append_constructor)
+add_multi_constructor('!append:', _append_constructor_md) # (with metadata, like '!extend:' - what dump writes for such a node that needs a flag)
 add_multi_constructor('!metadata:', _metadata_constructor)
 add_constructor('!include', _include_constructor)
+add_multi_constructor('!include:', _include_constructor_md)
 add_constructor('!prev', _prev_constructor)
+add_multi_constructor('!prev:', _prev_constructor_md)
 add_constructor('!xref', _xref_constructor)
 add_multi_constructor('!xref:', _xref_constructor_md)
 add_constructor('!ref', _xref_constructor)
